@@ -19,7 +19,8 @@ EXPLANATION = (
     'compensated (C02 rules). R16.5: write() serialises every registered '
     'operation that is not nested in another one. Decides field-by-field '
     'agreement of the two hand-written codecs; value-level fidelity of json/'
-    'gzip is library semantics (not decided).')
+    'gzip is library semantics (not decided).'
+    " R16.6: the serialiser visits every suboperation and write()'s non-root set is built unconditionally from every operation.")
 
 NOT_PERSISTED = {'is_finished': 'always True when read back'}
 
